@@ -396,7 +396,7 @@ def gen_case(rng, rtype, vtype, sk, idx):
     if rtype == "abmd":
         decr = vtype.endswith("decreasing")
         c["decreasing"] = decr
-        c["stop"] = ctl.dy(rng, 2.5, 3.5) if decr else ctl.dy(rng, 5.5, 6.5)
+        c["stop"] = ctl.dy(rng, 2.5, 4.5) if decr else ctl.dy(rng, 4.5, 6.5)   # the first value may already be beyond it
         b += " forceConstant %s\n stoppingValue %s\n" % (fnum(k0), fnum(c["stop"]))
         if decr:
             b += " decreasing on\n"
@@ -435,20 +435,21 @@ def scen_segment(c, prefix, steps, first_proc, inprefix=None, newrun_after=()):
     return s
 
 
-def run_case_seg(c, seg, wd):
+def run_case_seg(c, seg, wd, flavour="plain"):
     """returns dict(ok, events=[list per process], traj=[paths], sp=[scenario files], why)"""
     first, T = c["first"], c["T"]
     allsteps = list(range(first, first + T + 1))
-    tag = "c%d_%s" % (c["idx"], seg)
+    tag = "c%d_%s%s" % (c["idx"], seg, "" if flavour == "plain" else "_" + flavour)
     out = dict(ev=[], traj=[], sp=[], ok=True, why="")
     if seg == "one" or seg == "newrun":
         pre = os.path.join(wd, tag)
         nr = c["splits_newrun"] if seg == "newrun" else ()
-        r, ev, sp = common.run_esim("plain", scen_segment(c, pre, allsteps, True, newrun_after=nr), wd, tag, timeout=120)
+        r, ev, sp = common.run_esim(flavour, scen_segment(c, pre, allsteps, True, newrun_after=nr), wd, tag, timeout=600)
         out["ev"].append(ev)
         out["traj"].append(pre + ".colvars.traj")
         out["sp"].append(sp)
         out["r"] = r
+        out.setdefault("errs", []).append(r["err"])
         if not r["complete"]:
             out["ok"] = False
             out["why"] = "process incomplete rc=%s sig=%s timeout=%s: %s" % (r["rc"], r["sig"], r["timeout"], r["err"][-300:])
@@ -458,12 +459,13 @@ def run_case_seg(c, seg, wd):
     for i in range(len(bounds) - 1):
         a, b_ = bounds[i], bounds[i + 1]
         pre = os.path.join(wd, "%s_p%d" % (tag, i))
-        r, ev, sp = common.run_esim("plain", scen_segment(c, pre, list(range(a, b_ + 1)), i == 0, inprefix=prev), wd,
-                                    "%s_p%d" % (tag, i), timeout=120)
+        r, ev, sp = common.run_esim(flavour, scen_segment(c, pre, list(range(a, b_ + 1)), i == 0, inprefix=prev), wd,
+                                    "%s_p%d" % (tag, i), timeout=600)
         out["ev"].append(ev)
         out["traj"].append(pre + ".colvars.traj")
         out["sp"].append(sp)
         out["r"] = r
+        out.setdefault("errs", []).append(r["err"])
         if not r["complete"]:
             out["ok"] = False
             out["why"] = "process %d incomplete rc=%s sig=%s timeout=%s: %s" % (i, r["rc"], r["sig"], r["timeout"], r["err"][-300:])
@@ -914,11 +916,20 @@ def run(tier, replay):
     c.extra["cases_with_exhaustive_split_points"] = nsplit
     segs = ("one", "newrun", "restart")
     jobs = [(cs, sg) for cs in cases for sg in segs]
+    # a sample of the cases also runs under ASan+UBSan (reports are fatal), alternating the two split kinds
+    nbase = len(cases) - nsplit
+    asan_jobs = [(cs, "asan_" + ("newrun", "restart")[(cs["idx"] // 7) % 2]) for cs in cases[:nbase] if cs["idx"] % 7 == 3]
+    if asan_jobs:
+        common.vbuild.ensure("asan", tools=["esim"])
+        c.use_flavour("asan")
+    jobs += asan_jobs
 
     def do(job):
         cs, sg = job
         wd = os.path.join(c.work, "c%d" % cs["idx"])
         try:
+            if sg.startswith("asan_"):
+                return run_case_seg(cs, sg[5:], wd, flavour="asan")
             return run_case_seg(cs, sg, wd)
         except Exception as ex:     # harness failure: inconclusive, never a verdict
             return dict(ok=False, why="harness: %r" % ex, ev=[], traj=[], sp=[], r=dict(sig=0, timeout=False))
@@ -928,6 +939,22 @@ def run(tier, replay):
     opts_seen = set()
     rtypes_seen = set()
     vkeys = set()
+    for cs, sg in asan_jobs:
+        res = byjob[(cs["idx"], sg)]
+        c.count()
+        err = "".join(res.get("errs", []))
+        rep = common.sanitizer_report(err)
+        if rep:
+            c.violation("sanitizer:" + common.colvars_frame(err), "%s:%s:%s %s: %s" % (cs["rtype"], cs["vtype"], cs["sched"], sg, rep),
+                        res["sp"], dict(config=cs["cfg"]))
+        elif not res["ok"]:
+            r = res.get("r", {})
+            if r.get("sig") or r.get("timeout"):
+                c.violation("crash:%s:%s:%s:%s" % (cs["rtype"], cs["vtype"], cs["sched"], sg), res["why"], res["sp"], dict(config=cs["cfg"]))
+            else:
+                c.inconc("asan run %s:%s:%s: %s" % (cs["rtype"], cs["vtype"], cs["sched"], res["why"]))
+        else:
+            c.bump("asan_histories_clean")
     for cs in cases:
         combo = "%s:%s:%s" % (cs["rtype"], cs["vtype"], cs["sched"])
         ref_one = None
@@ -967,6 +994,9 @@ def run(tier, replay):
             if bad:
                 for what, text in bad:
                     k = key0 % what
+                    if what == "energy_normalisation":
+                        # one documented/coded mismatch for every value type: the value type goes last
+                        k = "%s:%s:%s:%s:%s" % (cs["rtype"], cs["sched"], what, sg, cs["vtype"])
                     c.bump("disagreements")
                     if os.environ.get("C06_DEBUG"):
                         print("DBG", k, text[:400])
